@@ -55,7 +55,7 @@ TagPool == {<< <<PW(1)>>, <<PW(2)>> >>, << <<PW(2)>>, <<PW(1)>>, <<PW(1)>>, <<PW
             << <<PW(1)>>, <<"NILV">>, <<PW(2)>>, <<"SAFEV", PW(3)>> >>, << <<PW(3)>>, <<"n5">> >>}
 CodePool == {<< <<"n404">> >>, << <<"n5">> >>}
 ULeafKinds == {"uPtrLeaf", "uValLeaf", "uValPtrLeaf", "uRegLeaf", "uMaybe"}
-UWrapKinds == {"uWrapU", "uWrapC", "uWrapUC", "uWrapFull", "uAnnotWrap", "uKeyWrap", "uMaybe"}
+UWrapKinds == {"uWrapU", "uWrapC", "uWrapUC", "uWrapFull", "uRegWrap", "uRegWrapFull", "uAnnotWrap", "uKeyWrap", "uMaybe"}
 
 PartsPool(sl) ==
   {<<Part("lit", s, 0)>> : s \in SH}
@@ -164,6 +164,8 @@ Step1(sl) ==
   \/ NilOps /\ \E o \in {"WithSecondaryError", "CombineErrors", "Join", "JoinPkg", "GoJoin"} \cap Ops :
         \E i \in NonNil(sl) : \E j \in FirstFree(sl) : Take(Step(o, i, <<i, j>>, E, E, E, 0, E))
   \/ On("GoWrap2") /\ \E p \in Pairs(sl) : \E s \in SH : Take(Step("UMulti", p[1], <<p[1], p[2]>>, s, E, E, 0, E))
+  \* a user multi-cause type with registered encoder / decoder
+  \/ On("GoWrap2") /\ \E p \in Pairs(sl) : \E s \in SH : Take(Step("UMulti", p[1], <<p[1], p[2]>>, s, <<<<"REG">>>>, E, 0, E))
   \* a multi-cause node with its own Is method (says it is any error whose text is the tag)
   \/ On("UIs") /\ On("GoWrap2") /\ \E p \in Pairs(sl) : \E s \in SH : \E t \in SH :
         Take(Step("UMulti", p[1], <<p[1], p[2]>>, s, <<t>>, E, 0, E))
